@@ -124,7 +124,7 @@ def compare_doc(rep, src, out, folder, top):
     S = L.sections_of(src, folder); O = L.sections_of(out, folder)
     names = style_names(S)
     ctx = {'collisions': set(n for n in names if names.count(n) > 1),
-           'nested': any(nested_section(x) for x in (S.body, S.styles, S.master, S.settings, S.meta, S.content_auto, S.styles_auto))}
+           'nested': False}     # (repaired) an inline office:document is ordinary content now
     # parts the loader drops because __fixXmlPart made them ill-formed
     dropped = {}
     for part in L.PARTS:
@@ -407,7 +407,7 @@ def run(chk, replay=None):
             if chk.failures:
                 return
     chk.deep_search = deep
-    chk.prove(modules=['OdfModel.Props.C05'], drivers=['drv_load'])
+    chk.prove(modules=['OdfModel.Props.C05', 'OdfModel.Props.C05Extras'], drivers=['drv_load'])
     drv = chk.driver('drv_load')
     L.correspond_pyspace(chk, drv)
     for rc in cases:
